@@ -224,7 +224,7 @@ def main(argv):
 
     all_known = {e["id"]: e for e in findings.load(prop)}
     for kid, cnt in sorted(known_hit.items()):
-        print(f"KNOWN-FINDING: property={prop} {kid}: {all_known[kid].get('what', '')} (hit {cnt}x)")
+        print(f"KNOWN-FINDING: property={prop} {kid}: {all_known[kid].get('what', '')[:240]} (hit {cnt}x)")
     for sub, label, path, b in violations:
         print(f"  unlisted failure sub={sub} label={label} count={b['count']} detail={b['detail'][:300]}")
         print(f"VIOLATION property={prop} replay={path}")
